@@ -12,6 +12,9 @@ from mc.core.pool import Pool
 
 MODULE = "mc.checks.c16"
 ALPHABET = ["a", "b", "..", ".", "", "c:"]
+# the gate decides by joining the name to a fixed probe directory and testing containment: names that mention the probe
+# directory's own components can leave the root and come back in (the property text names this boundary case)
+PROBE_ALPHABET = ["..", "a", "dafj08sajfa", "a90sufoiasj09", "."]
 PREFIXES = ["", "/", "//"]
 SUFFIXES = ["", "/"]
 
@@ -49,6 +52,17 @@ def all_names(maxcomp: int):
                     s = pre + body + suf
                     if s:
                         yield s
+
+
+def probe_names(maxcomp: int):
+    for n in range(1, maxcomp + 1):
+        for comps in itertools.product(PROBE_ALPHABET, repeat=n):
+            if not any(c in ("dafj08sajfa", "a90sufoiasj09") for c in comps):
+                continue  # covered by the main alphabet
+            body = "/".join(comps)
+            for pre in ("", "/"):
+                for suf in SUFFIXES:
+                    yield pre + body + suf
 
 
 def case_lexical(name: str):
@@ -209,6 +223,13 @@ def shard(task):
                         for sym, msg in r:
                             sh.violation({"plane": "gate", "symptom": sym, "absolute": name.startswith("/"), "trailing": name.endswith("/")}, msg,
                                          {"kind": "lexical", "name": name})
+    elif kind == "probe":
+        for name in arg:
+            r = case_lexical(name)
+            sh.case("L" + name, sample={"name": name, "expected_reject": expected_reject(name)} if len(sh.samples) < 1 else None)
+            sh.count("expected_reject" if expected_reject(name) else "expected_accept")
+            for sym, msg in r:
+                sh.violation({"plane": "gate-probe-names", "symptom": sym, "absolute": name.startswith("/"), "trailing": name.endswith("/")}, msg, {"kind": "lexical", "name": name})
     elif kind == "write":
         names, api = arg
         for name in names:
@@ -253,7 +274,9 @@ def main(tier="quick", seed=0, only=None):
     maxcomp = 6
     wcomp = 4 if tier == "quick" else 5
     tasks = [("lexical", (i, maxcomp)) for i in range(len(ALPHABET))]
-    wnames = list(all_names(wcomp))
+    wnames = list(all_names(wcomp)) + list(probe_names(wcomp))
+    pn = list(probe_names(5 if tier == "quick" else 6))
+    tasks += [("probe", pn[i : i + 2000]) for i in range(0, len(pn), 2000)]
     step = 400
     for api in ("writestr", "writef"):
         tasks += [("write", (wnames[i : i + step], api)) for i in range(0, len(wnames), step)]
@@ -264,7 +287,7 @@ def main(tier="quick", seed=0, only=None):
         chk.merge_pool([r], plane=t[0])
     return chk.finish(
         rule=(
-            f"every name of 1..{maxcomp} components over {ALPHABET} x prefix {PREFIXES} x suffix {SUFFIXES} through check_archive_path; "
+            f"every name of 1..{maxcomp} components over {ALPHABET} x prefix {PREFIXES} x suffix {SUFFIXES} through check_archive_path, plus every name of up to 5 (thorough 6) components over {PROBE_ALPHABET} that mentions a component of the gate's internal probe directory; "
             f"every such name of <= {wcomp} components through a real writestr and a real writef session (one member before, one after, "
             "close, reopen, list, extract); every absolute/relative/redundant spelling of every file and directory of a scratch tree "
             "through write and writeall (str and pathlib.Path, arcname None). Verdicts compared with an independent lexical definition "
